@@ -21,7 +21,10 @@ DOT_FILE = '.h.yaml'
 SUBDIR = 'sub.yaml'          # a sub-directory that looks like a file name
 SUBDIR_FILE = 'sub.yaml/zz.yaml'
 ROLE_POOL = ('x', 'y', 'z', 'w')
-REG_NAMES = ('svc:get', 'svc:list', 'svc:new', 'n3', 'svc:del', 'n5')
+# first letters vary on purpose (r, u, l, e, ':' and others): prefix/character-
+# set slips on 'rule:<name>' depend on how a name starts
+REG_NAMES = ('svc:get', 'list_ports', 'update:port', 'n3', 'extend_vol',
+             'remove:x')
 OLD_NAMES = ('svc:old', 'old2')
 FILE_ONLY = ('extra', 'default')
 NEVER = 'nowhere:defined'
